@@ -85,9 +85,11 @@ type ProposalCall struct {
 	Hash   primitives.BlockHash
 	OK     bool
 	Ctx    context.Context
+	Member primitives.MemberId // the proposer the library named to the consumer
 }
 
 type BlockUtils struct {
+	Lenient bool // ValidateBlockProposal approves a proposal whose block is missing
 	Validations []*ProposalCall
 	Requests    []*ProposalCall
 	NextTag     func() byte
@@ -114,8 +116,10 @@ func (u *BlockUtils) ValidateBlockProposal(ctx context.Context, blockHeight prim
 	ok := false
 	if b != nil {
 		ok = b.ProposalOK && b.H == blockHeight && Commits(b, blockHash)
+	} else if u.Lenient {
+		ok = true // a consumer that does not look at a missing block (as the repository's own test mocks)
 	}
-	u.Validations = append(u.Validations, &ProposalCall{Height: blockHeight, Block: b, Hash: blockHash, OK: ok, Ctx: ctx})
+	u.Validations = append(u.Validations, &ProposalCall{Height: blockHeight, Block: b, Hash: blockHash, OK: ok, Ctx: ctx, Member: memberId})
 	if u.Interfere != nil {
 		u.Interfere(ctx, "ValidateBlockProposal")
 	}
